@@ -407,7 +407,8 @@ documented formulas -/
 
 def jRow (j : JRow) : Row := { num := fun | .demand => j.d | .head => j.h | .pressure => j.p | _ => 0 }
 def rRow (r : RRow) : Row := { num := fun | .demand => r.d | .head => r.h | _ => 0 }
-def pRow (p : PRow) : Row := { num := fun | .flowrate => p.q | .headStart => p.hs | .headEnd => p.he | _ => 0 }
+def pRow (p : PRow) : Row :=
+  { num := fun | .flowrate => p.q | _ => 0, link := fun | .head, .startNode => p.hs | .head, .endNode => p.he | _, _ => 0 }
 
 /-- results tables at one time, as `todini_index` reads them -/
 def todiniEnv (pstar : Rat) (js : List JRow) (rs : List RRow) (ps : List PRow) : Env :=
@@ -469,7 +470,8 @@ theorem population_impacted_code_eq_doc (rel : Rat → Rat → Bool) (pop a1 a2 
 
 /-- a pump at one time; `effCurve`: the pump has an efficiency curve (`pump.efficiency is not None`) -/
 def pumpRow (q hs he : Rat) (effCurve : Bool) : Row :=
-  { num := fun | .flowrate => q | .headStart => hs | .headEnd => he | _ => 0,
+  { num := fun | .flowrate => q | _ => 0,
+    link := fun | .head, .startNode => hs | .head, .endNode => he | _, _ => 0,
     none := fun | .efficiency => !effCurve | _ => false }
 
 def energyEnv (eff dt : Rat) : Env := { glob := { num := fun | .globalEfficiency => eff | .reportTimestep => dt | _ => 0 } }
@@ -643,6 +645,69 @@ theorem annual_network_cost_efficiency_partial (pi eff eff' : Rat) (t : CostTabl
       = some (annualNetworkCost pi t (costItems eff' exp ln rpow n)) := by
   rw [annual_network_cost_code_eq_doc pi eff t exp ln rpow n row ht he (by simp [h1]) hk]
   simp [costItems, h1, h2]
+
+/-! ### results tables keyed by NAME: which quantities a metric pairs
+
+The translator tracks how pandas / numpy pairs the operands of every elementwise operation (columns labelled by element
+names align by label; columns labelled by node names do not align with them; numpy arrays pair by position and keep the
+order of the name list they were built from) and refuses an operation that would not pair the values of ONE element.
+Here the inputs are functions of the node / link NAME, rows are names, and `.at .head .startNode` is the head table at
+the start node of the row's link: the documented formulas below name the element of every factor explicitly. -/
+
+/-- results at one time, keyed by node / link name, and the topology the metrics read -/
+structure Keyed where
+  head : String → Rat
+  pressure : String → Rat
+  demand : String → Rat
+  elevation : String → Rat
+  flowrate : String → Rat
+  startNode : String → String
+  endNode : String → String
+  junctions : List String
+  reservoirs : List String
+  pumps : List String
+
+def Keyed.row (T : Keyed) (effCurve : Bool) (n : String) : Row :=
+  { num := fun | .head => T.head n | .pressure => T.pressure n | .demand => T.demand n | .elevation => T.elevation n
+               | .flowrate => T.flowrate n | _ => 0,
+    link := fun | .head, .startNode => T.head (T.startNode n) | .head, .endNode => T.head (T.endNode n) | _, _ => 0,
+    none := fun | .efficiency => !effCurve | _ => false }
+
+def Keyed.env (T : Keyed) (glob : Var → Rat) : Env :=
+  { glob := { num := glob },
+    rows := fun | .junctions => T.junctions.map (T.row false) | .reservoirs => T.reservoirs.map (T.row false)
+                | .pumps => T.pumps.map (T.row false) | _ => [] }
+
+/-- the Todini index with every factor's element named: demand, head and pressure of the SAME junction j; demand and
+head of the SAME reservoir r; the flow of pump p with the heads at p's OWN end and start node -/
+def todiniKeyed (pstar : Rat) (T : Keyed) : Option Rat :=
+  let pout := lsum (T.junctions.map fun j => T.demand j * T.head j)
+  let pexp := lsum (T.junctions.map fun j => T.demand j * (pstar + (T.head j - T.pressure j)))
+  let pinRes := lsum (T.reservoirs.map fun r => -T.demand r * T.head r)
+  let pinPump := lsum (T.pumps.map fun p => T.flowrate p * rabs (T.head (T.endNode p) - T.head (T.startNode p)))
+  divz (pout - pexp) (pinRes + pinPump - pexp)
+
+theorem todini_keyed_code_eq_doc (pstar : Rat) (T : Keyed) (row : Row) :
+    evalO (T.env fun | .Pstar => pstar | _ => 0) row Gen.todini_index = todiniKeyed pstar T := by
+  mexpr_tie [Gen.todini_index, Keyed.env, Keyed.row, todiniKeyed]
+
+theorem todiniKeyed_eq (pstar : Rat) (T : Keyed) :
+    todiniKeyed pstar T = todini pstar (T.junctions.map fun j => ⟨T.demand j, T.head j, T.pressure j⟩)
+      (T.reservoirs.map fun r => ⟨T.demand r, T.head r⟩)
+      (T.pumps.map fun p => ⟨T.flowrate p, T.head (T.startNode p), T.head (T.endNode p)⟩) := by
+  simp [todiniKeyed, todini, Function.comp_def]
+
+/-- system MRI: demand, pressure and elevation of the same junction -/
+theorem mri_system_keyed_code_eq_doc (pstar : Rat) (T : Keyed) (row : Row) :
+    evalO (T.env fun | .Pstar => pstar | _ => 0) row Gen.mri_system
+      = mriSystem pstar (T.junctions.map fun j => (T.demand j, T.pressure j, T.elevation j)) := by
+  mexpr_tie [Gen.mri_system, Keyed.env, Keyed.row, mriSystem]
+
+/-- pump power of pump `p`: its own flow with the heads at its own end / start node -/
+theorem pump_power_keyed_code_eq_doc (eff : Rat) (T : Keyed) (p : String) :
+    evalO (T.env fun | .globalEfficiency => eff | _ => 0) (T.row false p) Gen.pump_power
+      = pumpPower (T.flowrate p) (T.head (T.startNode p)) (T.head (T.endNode p)) eff := by
+  mexpr_tie [Gen.pump_power, Keyed.env, Keyed.row, pumpPower, rho, gAcc]
 
 /-! ### what the documentation says about the values -/
 
